@@ -8,6 +8,10 @@ import suite_e
 import suite_json
 import suite_xml
 import suite_glencoe
+import suite_afm
+import suite_m
+import suite_h
+import suite_env
 
 TRUSTED_BASE = [
     "Coq 8.16.1 kernel; vm_compute for Examples / refuted witnesses; no native_compute",
@@ -129,6 +133,58 @@ PROPS = {
               "3 cycles with byte-identical text"),
         assumptions=["json.loads(json.dumps(v)) = v (validated on every case)"],
         trusted=["external: Python json module"],
+    ),
+    "C06": dict(
+        props="Props/C06.v", tables=["core", "afm"],
+        suites=[suite_afm.run],
+        rule=("suites W-afm (bytes of AFMWriter vs [afm_write]), P-afm (the real afmparser parse tree of the written file, "
+              "converted to the model's syntax-tree type, vs [afm_cst]: validates the parser premise of the theorems) and "
+              "R-afm (AFMReader on the file vs [afm_read_cst] of the parse tree, pointer-annotated); inputs: random models of "
+              "the AFM fragment (WORD names, mixed single children and [a,b] groups in any order, integer-range and "
+              "enumerated attribute domains, constraints over the seven operators) and all constraint trees of depth <= 2 "
+              "over three names (a stratified sample in quick). oracle: independent normal form (singles before groups), "
+              "attributes, constraints by truth table, 4 cycles with identical text from the second generation"),
+        assumptions=["the afmparser ANTLR parser inverts the rendering of the writer's syntax tree (premise of C06_roundtrip, "
+                     "validated by P-afm on every case)"],
+        trusted=["external: afmparser 1.0.3 + antlr4 runtime; harness conversion of the ANTLR tree (suite_afm.parse_afm)"],
+    ),
+    "C12": dict(
+        props="Props/C12.v", tables=["core"],
+        suites=[suite_env.run],
+        rule=("suite H: all eight writers on generated models (AFM-compatible models with attributes, models with "
+              "non-ASCII / special names, wide groups) in fresh interpreter processes under 5 (quick) / 24 (thorough) "
+              "combinations of PYTHONHASHSEED x locale / PYTHONUTF8 / PYTHONIOENCODING, plus repeated calls and a call "
+              "without a file in one process: outputs compared WITH EACH OTHER byte for byte, returned value = file bytes, "
+              "file is valid UTF-8 and is read back with the same names, deep dump of the model before = after. "
+              "non-trivial = every (model, writer) pair"),
+        assumptions=["determinism across processes / hash seeds / locales is OBSERVED on the sampled environments, not proved "
+                     "(no Gallina model exhibits the interpreter's hash seed or locale)"],
+    ),
+    "C17": dict(
+        props="Props/C17.v", tables=["core", "metrics"],
+        suites=[suite_m.run],
+        rule=("suite O-metrics: FMMetrics through Metrics.execute on ONE re-used operation object over the whole run, with "
+              "random subsets of the method names as filter, vs the model's [report]; every entry compared (name, result, "
+              "size, ratio in ten-thousandths, parent, level); inputs: root-only models, all trees up to 3/4 features, "
+              "random models with all relation kinds incl. [0..0] singles, abstract features, logical constraints. oracle "
+              "from the property text: 40 names once, size=len, ratio = round(size/base,4) in [0,1], the partition "
+              "identities, definitions recomputed on the spec tree, equality with the stand-alone operations, equality with "
+              "a fresh operation object, filtered entries = entries of the full report"),
+        assumptions=["feature names are unique (the implementation caches features in dicts keyed by name)"],
+    ),
+    "C19": dict(
+        props="Props/C19.v", tables=["core", "metrics"],
+        suites=[suite_h.run_history, suite_h.run_genrandom],
+        rule=("suite O-history: sequences of three look-alike models (equal-comparing but different, same names in other "
+              "positions) through the nine read-only operations and FMMetrics on re-used operation objects; each result "
+              "compared with a fresh object's and with the model, deep dump of the model before/after. suite O-genrandom: "
+              "GenerateRandomAttribute with element / integer-range / float-range / exponent-notation / mixed domains, "
+              "only-leaf on and off, features that already carry the attribute; the draws of random.choice/uniform/randint "
+              "are recorded and replayed into [gen_random_attribute]; the whole resulting model is compared. oracle from the "
+              "property text (exactly one attribute on targeted features, value in the domain, nothing else touched, "
+              "missing domain = FlamaException)"),
+        assumptions=["random.randint(a,b) answers within [a,b] (premise randint_ok_pos of C19_gen_value; the recorded draws are "
+                     "replayed, so a violation would show as a value outside the domain in the oracle)"],
     ),
 }
 
